@@ -34,8 +34,11 @@ type c08Case struct {
 	TipOnC    bool  `json:"tip_on_complete"`
 	// animated tip: 0 = the single frame ">"; 1 = ">", ">>>"; 2 = ">>", ">", ">>>". TipAdvance Fill calls
 	// are made (and discarded) before the judged one, so that it draws a later frame.
-	TipFrames  int `json:"tip_frames,omitempty"`
-	TipAdvance int `json:"tip_advance,omitempty"`
+	// PrevTotal != 0: the same filler instance has drawn one frame before, with this total and otherwise
+	// identical statistics (a bar whose total changed between two frames)
+	PrevTotal  int64 `json:"prev_total,omitempty"`
+	TipFrames  int   `json:"tip_frames,omitempty"`
+	TipAdvance int   `json:"tip_advance,omitempty"`
 }
 
 func init() {
@@ -114,6 +117,9 @@ func genC08(t *rapid.T) interface{} {
 		c.Completed = true
 	}
 	c.TipOnC = rapid.IntRange(0, 3).Draw(t, "tipc") == 0
+	if rapid.IntRange(0, 4).Draw(t, "prevtotal?") == 0 {
+		c.PrevTotal = rapid.OneOf(rapid.Int64Range(1, 1000), rapid.Just(c.Current), rapid.Just(c.Current2)).Draw(t, "prevtotal")
+	}
 	if rapid.IntRange(0, 3).Draw(t, "animatedtip") == 0 {
 		c.TipFrames = rapid.IntRange(1, 2).Draw(t, "tipframes")
 		c.TipAdvance = rapid.IntRange(0, 3).Draw(t, "tipadvance")
@@ -169,6 +175,10 @@ func c08Fill(c *c08Case, current int64, completed bool) (c08Cells, error) {
 	var err error
 	// a fill that never returns (or eats the heap) is reported, not waited for
 	_ = guardTermination("C08", c, func() {
+		if c.PrevTotal != 0 && c.PrevTotal != c.Total {
+			_ = f.Fill(io.Discard, decor.Statistics{AvailableWidth: c.Width, RequestedWidth: c.Requested,
+				Total: c.PrevTotal, Current: current, Refill: refill, Completed: completed})
+		}
 		for k := 0; k < c.TipAdvance && c.TipFrames > 0; k++ {
 			_ = f.Fill(io.Discard, decor.Statistics{AvailableWidth: c.Width, RequestedWidth: c.Requested,
 				Total: c.Total, Current: current, Refill: refill, Completed: completed})
@@ -249,7 +259,14 @@ func expectedCells(inner int, cur, total int64) (lo, hi int) {
 	return int(l), int(h)
 }
 
+// c08WholeTip: the judged Fill drew a tip frame wider than the proportional part
+// (set by c08Check; the monotonicity relation is not applied then: which frame of
+// an animated tip is drawn depends on how many frames with a non-empty filled
+// part came before).
+var c08WholeTip bool
+
 func c08Check(c *c08Case, current int64, completed bool) (filled int, err error) {
+	c08WholeTip = false
 	inner := c08Inner(c)
 	cells, ferr := c08Fill(c, current, completed)
 	if ferr != nil {
@@ -271,6 +288,7 @@ func c08Check(c *c08Case, current int64, completed bool) (filled int, err error)
 		slack = 1 // within one rune: a 2-column rune that does not fit leaves one cell
 	}
 	if cells.tip > hi {
+		c08WholeTip = true
 		// a tip frame is one indivisible component: where the proportional part is
 		// narrower than the frame, the frame is drawn whole ("to within one rune for
 		// multi-column runes" read as: to within one component)
@@ -320,6 +338,9 @@ func runC08(ci interface{}) Result {
 	if c.Refill > 0 {
 		r.Classes = append(r.Classes, "refill")
 	}
+	if c.PrevTotal != 0 && c.PrevTotal != c.Total {
+		r.Classes = append(r.Classes, "total-changed-between-frames")
+	}
 	if c.TipFrames > 0 && c.TipAdvance > 0 {
 		r.Classes = append(r.Classes, "animated-tip")
 	}
@@ -334,6 +355,7 @@ func runC08(ci interface{}) Result {
 		r.Err, r.Kind = err, "proportion"
 		return r
 	}
+	whole1 := c08WholeTip
 	if c.Current2 != c.Current {
 		comp2 := c.Completed && c.Current2 >= c.Total
 		f2, err := c08Check(c, c.Current2, comp2)
@@ -341,7 +363,9 @@ func runC08(ci interface{}) Result {
 			r.Err, r.Kind = fmt.Errorf("at current2=%d: %v", c.Current2, err), "proportion"
 			return r
 		}
-		if c.Current <= c.Current2 && f2 < f1 && inner >= 0 {
+		// (animated tips: the two calls may be at different frames of the animation,
+		// whose widths differ; the relation is about one and the same tip)
+		if c.Current <= c.Current2 && f2 < f1 && inner >= 0 && !whole1 && !c08WholeTip && c.TipFrames == 0 {
 			r.Err, r.Kind = fmt.Errorf("not monotone: current %d -> %d cells, current %d -> %d cells", c.Current, f1, c.Current2, f2), "monotone"
 			return r
 		}
